@@ -10,10 +10,17 @@
 //!   join_mode 0: wait for every result, then join (the pool history up to there is replayed
 //!                through the model); 1: join while the dispatch_blocking jobs are still running;
 //!                2: join right after submitting (queued tasks may be cancelled: only the gauge,
-//!                "at most once" and "join returns" are judged)
+//!                "at most once" and "join returns" are judged);
+//!             3: saturation probe: the path-0 jobs (exactly L of them, first in the case) are held
+//!                inside the pool until the harness opens a gate; once all L run, every
+//!                dispatch_blocking submitter makes its first call: it MUST get the closure back
+//!                (the runtimes have saturated the one shared pool); then the gate opens and the
+//!                case goes on as join_mode 0
 //! out: same layout as harness/rt/src/bin/c17.rs:
 //!   [n_ev; (kind a b)*; njobs; (owner panics runner first runs status)*; max_gauge; L; hang; dropped; D;
-//!    0; join; join_mode; 0]
+//!    probe; join; join_mode; 0]
+//!   probe: 0 not applicable / saturation not reached in time, 1 handed back as required,
+//!          2 dispatch_blocking ACCEPTED a job while L jobs of the runtimes were running
 //!   status: 1 own result delivered, 2 panic surfaced at the submitter, 4 cancelled, 0 nothing, 3 other
 //!   join: 1 Ok, 2 Err/panic, 3 did not return within the watchdog
 use std::{
@@ -73,6 +80,8 @@ struct Gauge {
     max: AtomicUsize,
     started: AtomicUsize,
     finished: AtomicUsize,
+    /// 0 = path-0 jobs wait inside the pool (saturation probe)
+    gate: AtomicUsize,
 }
 
 struct Parker(std::thread::Thread);
@@ -106,6 +115,12 @@ fn body(rec: Arc<JobRec>, gauge: Arc<Gauge>) -> impl FnOnce() -> u64 + Send + 's
         gauge.started.fetch_add(1, SeqCst);
         let n = gauge.cur.fetch_add(1, SeqCst) + 1;
         gauge.max.fetch_max(n, SeqCst);
+        if rec.path == 0 {
+            let t0 = Instant::now();
+            while gauge.gate.load(SeqCst) == 0 && t0.elapsed() < Duration::from_secs(60) {
+                std::thread::sleep(Duration::from_micros(200));
+            }
+        }
         std::thread::sleep(rec.dur);
         gauge.cur.fetch_sub(1, SeqCst);
         gauge.finished.fetch_add(1, SeqCst);
@@ -125,6 +140,7 @@ struct CaseOut {
     events: Vec<verif::Event>,
     max_gauge: u64,
     join: u64,
+    probe: u64,
 }
 
 fn settle(rec: &JobRec, res: Option<Result<u64, oneshot::Canceled>>) {
@@ -183,6 +199,40 @@ fn run_case(
         .build()
         .map_err(|_| BadCase)?;
     let rxs: Mutex<Vec<(usize, oneshot::Receiver<u64>)>> = Mutex::new(vec![]);
+    let probing = join_mode == 3;
+    gauge.gate.store(!probing as usize, SeqCst);
+    let n_path0 = jobs.iter().filter(|j| j.path == 0).count();
+    let dispatch_path0 = |rxs: &Mutex<Vec<(usize, oneshot::Receiver<u64>)>>| {
+        // path 0: tasks on the worker runtimes that call spawn_blocking
+        for rec in jobs.iter().filter(|j| j.path == 0) {
+            let b = body(rec.clone(), gauge.clone());
+            let res = disp.dispatch(move || async move {
+                match compio_runtime::spawn_blocking(b).await {
+                    Ok(v) => v,
+                    Err(_) => PANIC_MARK,
+                }
+            });
+            match res {
+                Ok(rx) => rxs.lock().unwrap().push((rec.tok as usize, rx)),
+                Err(_) => rec.status.store(3, SeqCst),
+            }
+        }
+    };
+    let mut saturated = false;
+    if probing {
+        dispatch_path0(&rxs);
+        let t0 = Instant::now();
+        while gauge.started.load(SeqCst) < n_path0 && t0.elapsed() < DEADLINE {
+            std::thread::sleep(Duration::from_millis(1));
+        }
+        saturated = n_path0 == l && gauge.started.load(SeqCst) == n_path0;
+        if !saturated {
+            gauge.gate.store(1, SeqCst);
+        }
+    }
+    let probed = AtomicUsize::new(0);
+    let accepted_while_saturated = AtomicUsize::new(0);
+    let n_submitters = (0..s_n).filter(|s| jobs.iter().any(|j| j.path == 1 && j.tok % s_n == *s)).count();
     std::thread::scope(|sc| {
         // path 1: the dispatcher's own dispatch_blocking, from S threads, retried while saturated
         for s in 0..s_n {
@@ -192,14 +242,24 @@ fn run_case(
                 .cloned()
                 .collect();
             let (disp, gauge, rxs) = (&disp, gauge.clone(), &rxs);
+            let (probed, accepted_while_saturated) = (&probed, &accepted_while_saturated);
             sc.spawn(move || {
+                let mut first_call = true;
                 for rec in mine {
                     let d = w_n + s;
                     rec.owner.store(d, SeqCst);
                     verif::emit(H_CALL, rec.gtok, d as i64);
                     let mut f = body(rec.clone(), gauge.clone());
                     loop {
-                        match disp.dispatch_blocking(f) {
+                        let res = disp.dispatch_blocking(f);
+                        if first_call {
+                            first_call = false;
+                            if saturated && res.is_ok() {
+                                accepted_while_saturated.fetch_add(1, SeqCst);
+                            }
+                            probed.fetch_add(1, SeqCst);
+                        }
+                        match res {
                             Ok(rx) => {
                                 verif::emit(H_RET, rec.gtok, 1);
                                 rxs.lock().unwrap().push((rec.tok as usize, rx));
@@ -219,19 +279,17 @@ fn run_case(
                 }
             });
         }
-        // path 0: tasks on the worker runtimes that call spawn_blocking
-        for rec in jobs.iter().filter(|j| j.path == 0) {
-            let b = body(rec.clone(), gauge.clone());
-            let res = disp.dispatch(move || async move {
-                match compio_runtime::spawn_blocking(b).await {
-                    Ok(v) => v,
-                    Err(_) => PANIC_MARK,
+        if probing {
+            if saturated {
+                // every submitter has made its first call against the saturated pool: open the gate
+                let t0 = Instant::now();
+                while probed.load(SeqCst) < n_submitters && t0.elapsed() < DEADLINE {
+                    std::thread::sleep(Duration::from_millis(1));
                 }
-            });
-            match res {
-                Ok(rx) => rxs.lock().unwrap().push((rec.tok as usize, rx)),
-                Err(_) => rec.status.store(3, SeqCst),
+                gauge.gate.store(1, SeqCst);
             }
+        } else {
+            dispatch_path0(&rxs);
         }
     });
     let mut rxs = rxs.into_inner().unwrap();
@@ -245,8 +303,15 @@ fn run_case(
             None => 3,
         }
     };
+    let probe = if !saturated || n_submitters == 0 {
+        0
+    } else if accepted_while_saturated.load(SeqCst) > 0 {
+        2
+    } else {
+        1
+    };
     match join_mode {
-        0 => {
+        0 | 3 => {
             for (i, rx) in rxs {
                 settle(&jobs[i], block_on_until(rx, deadline));
             }
@@ -281,7 +346,7 @@ fn run_case(
         std::thread::sleep(Duration::from_millis(5));
         calm = if gauge.started.load(SeqCst) == gauge.finished.load(SeqCst) { calm + 1 } else { 0 };
     }
-    Ok(CaseOut { jobs, events, max_gauge: gauge.max.load(SeqCst) as u64, join })
+    Ok(CaseOut { jobs, events, max_gauge: gauge.max.load(SeqCst) as u64, join, probe })
 }
 
 /// raw log -> model events (same encoding as harness/rt/src/bin/c17.rs); jobs of path 0 are
@@ -477,9 +542,10 @@ fn model_events(c: &CaseOut) -> (Vec<[u64; 3]>, Vec<usize>, u64) {
 }
 
 fn encode(c: &CaseOut, l: u64, d_n: u64, join_mode: u64) -> Vec<u64> {
-    let (evs, mut order, dropped) = if join_mode == 0 { model_events(c) } else { (vec![], vec![], 0) };
+    let replayed = join_mode == 0 || join_mode == 3;
+    let (evs, mut order, dropped) = if replayed { model_events(c) } else { (vec![], vec![], 0) };
     // the history is replayed only when every job appears in it
-    let complete = join_mode == 0 && order.len() == c.jobs.len();
+    let complete = replayed && order.len() == c.jobs.len();
     let evs = if complete { evs } else { vec![] };
     if !complete {
         order.clear();
@@ -520,7 +586,7 @@ fn encode(c: &CaseOut, l: u64, d_n: u64, join_mode: u64) -> Vec<u64> {
             st,
         ]);
     }
-    out.extend_from_slice(&[c.max_gauge, l, hang, dropped, d_n, 0, c.join, join_mode, 0]);
+    out.extend_from_slice(&[c.max_gauge, l, hang, dropped, d_n, c.probe, c.join, join_mode, 0]);
     out
 }
 
@@ -539,7 +605,7 @@ fn run(case: &[u64]) -> Result<Vec<u64>, BadCase> {
         || tmo_ms > 100
         || !(1..=4).contains(&w_n)
         || concurrent > 1
-        || join_mode > 2
+        || join_mode > 3
         || !(1..=2).contains(&s_n)
         || nj > 24
     {
